@@ -229,7 +229,9 @@ size_t Decode(const char *base64_ptr, size_t base64_len, void *raw_data_ptr, siz
         if (c == BASE64_PAD)
             break;
 
-        uint8_t v = base64de[int(c)];
+        //! 注意：char 可能为负值，不能直接用作下标
+        uint8_t uc = static_cast<uint8_t>(c);
+        uint8_t v = (uc < sizeof(base64de)) ? base64de[uc] : 255;
         if (v == 255)
             return 0;
 
@@ -274,7 +276,9 @@ size_t Decode(const std::string &base64_str, std::vector<uint8_t> &raw_data)
         if (c == BASE64_PAD)
             break;
 
-        uint8_t v = base64de[int(c)];
+        //! 注意：char 可能为负值，不能直接用作下标
+        uint8_t uc = static_cast<uint8_t>(c);
+        uint8_t v = (uc < sizeof(base64de)) ? base64de[uc] : 255;
         if (v == 255)
             return 0;
 
